@@ -368,7 +368,7 @@ fn concurrent_phase(src: &mut Src, rep: &mut Report, pool: &[Coll]) -> Verdict {
         })
         .collect();
     let mut chooser = make_chooser(src, nthreads, total * 8 + 4, rep);
-    let exec = run(threads, chooser.as_mut(), 6000);
+    let exec = run(threads, chooser.as_mut(), 12_000);
     drop(chooser);
     let fail = |sig: &str, detail: String| Verdict::Fail { sig: format!("concurrent:{}", sig), detail };
     match &exec.verdict {
